@@ -5,7 +5,7 @@ import types
 
 import z3
 
-from ..sym import documented, Assumed, EngineLimit, Sym, _lift, ite
+from ..sym import documented, Assumed, EngineLimit, Sym, V, _lift, ite
 
 
 def _is_tensor(x):
@@ -131,6 +131,11 @@ def arange(*a, **k):
         n = _dim(a[0])
         return Tensor((n,), lambda idx: idx[0])
     start, stop = _lift(a[0]), _lift(a[1])
+    if len(a) > 2 and isinstance(a[2], int) and a[2] < 0:
+        if a[2] != -1:
+            raise EngineLimit("arange with step %r" % a[2])
+        ln = z3.If(start > stop, start - stop, z3.IntVal(0))
+        return Tensor((z3.simplify(ln),), lambda idx: start - idx[0])
     step = _lift(a[2]) if len(a) > 2 else z3.IntVal(1)
     # length = ceil((stop-start)/step) for step > 0 (integers)
     ln = z3.If(stop > start, (stop - start + step - 1) / step, z3.IntVal(0))
@@ -197,9 +202,15 @@ def searchsorted(a, v, side="left"):
     return out
 
 
-def logsumexp(x, axis=None):
+def logsumexp(x, axis=None, keepdims=False):
     from ..tensor import Tensor, mk_lse
 
+    Assumed.note("logsumexp(x, axis) = log sum exp along the axis")
+    if keepdims:
+        r = logsumexp(x, axis=axis)
+        ax = axis if axis >= 0 else axis + x.ndim
+        shp = tuple(x.shape[:ax]) + (1,) + tuple(x.shape[ax + 1:])
+        return Tensor(shp, lambda idx: r.fn(tuple(idx[:ax]) + tuple(idx[ax + 1:])))
     if isinstance(x, Sym):
         return x
     if not isinstance(x, Tensor) or x.ndim != 1 or axis not in (None, 0, -1):
@@ -235,6 +246,26 @@ def diag(x):
     return Tensor((n, n), lambda idx: z3.If(idx[0] == idx[1], x.fn((idx[0],)), z3.RealVal(0)))
 
 
+InvV = z3.Function("MatInv", V, z3.IntSort(), z3.IntSort(), z3.RealSort())
+MvnLP = z3.Function("MvnLogPdf", V, V, V, z3.RealSort())
+
+
+def inv(m):
+    from ..tensor import Tensor
+    from ..gfi import enc
+
+    Assumed.note("jnp.linalg.inv: uninterpreted matrix inverse (only congruence is used)")
+    me = enc(m)
+    return Tensor(m.shape, lambda idx: InvV(me, idx[0], idx[1]))
+
+
+def mvn_logpdf(x, mean, cov):
+    from ..gfi import enc
+
+    Assumed.note("jax.scipy.stats.multivariate_normal.logpdf(x, mean, cov): uninterpreted Gaussian log density")
+    return Sym(MvnLP(enc(x), enc(mean), enc(cov)))
+
+
 def zeros(shape, dtype=None):
     from ..tensor import Tensor
 
@@ -258,7 +289,7 @@ def ones(shape, dtype=None):
 def namespace(**extra):
     ns = types.SimpleNamespace(
         array=array, asarray=asarray, shape=shape, ndim=ndim, where=where, sum=sum, any=any,
-        minimum=minimum, maximum=maximum, log=log, exp=exp, add=add, ndarray=object, arange=arange, zeros=zeros, ones=ones, mean=mean, repeat=repeat, nan=float('nan'), cumsum=cumsum, searchsorted=searchsorted, diag=diag, concatenate=concatenate,
+        minimum=minimum, maximum=maximum, log=log, exp=exp, add=add, ndarray=object, arange=arange, zeros=zeros, ones=ones, mean=mean, repeat=repeat, nan=float('nan'), cumsum=cumsum, searchsorted=searchsorted, diag=diag, linalg=types.SimpleNamespace(inv=inv), zeros_like=lambda x: zeros(x.shape) if hasattr(x, 'shape') and x.shape else Sym(z3.RealVal(0)), concatenate=concatenate,
         float32="float32", int32="int32", bool_="bool", pi=3.141592653589793,
     )
     for k, v in extra.items():
